@@ -90,7 +90,22 @@ def op_fault_run(t):
             kw['temporary_directory'] = cd.given_tmp
         arg = path
         if t.get('form') == 'generator':
-            arg = ((c, o) for c, o in events)
+            if kind == 'gen_raises':
+                def _gen():
+                    for i, (c, o) in enumerate(events):
+                        if i == fault['pos']:
+                            raise RuntimeError('generator failed after %d events' % i)
+                        yield (c, o)
+                arg = _gen()
+            elif kind == 'gen_bad_event':
+                def _gen():
+                    for i, (c, o) in enumerate(events):
+                        if i == fault['pos']:
+                            yield (('not', 'a list'), 7)
+                        yield (c, o)
+                arg = _gen()
+            else:
+                arg = ((c, o) for c, o in events)
         if kind == 'storage':
             _BUDGET = int(fault['budget'])
             preprocess._job_binary_event_file = _limited_job
